@@ -121,16 +121,24 @@ func (c *Conn) Invoke(ctx context.Context, rpc string, enc drpc.Encoding, in, ou
 
 	// we have to protect c.wbuf here even though the manager only allows one
 	// stream at a time because the stream may async close allowing another
-	// concurrent call to Invoke to proceed.
-	c.mu.Lock()
-	defer c.mu.Unlock()
-
-	c.wbuf, err = drpcenc.MarshalAppend(in, enc, c.wbuf[:0])
+	// concurrent call to Invoke to proceed. that other call holds the buffer
+	// until it is done, which can take for ever (a response that never
+	// arrives), so do not wait for it: a call that finds the buffer in use
+	// marshals into a buffer of its own. otherwise a call whose context is
+	// already canceled could not return before an unrelated call does.
+	var data []byte
+	if c.mu.TryLock() {
+		defer c.mu.Unlock()
+		c.wbuf, err = drpcenc.MarshalAppend(in, enc, c.wbuf[:0])
+		data = c.wbuf
+	} else {
+		data, err = drpcenc.MarshalAppend(in, enc, nil)
+	}
 	if err != nil {
 		return err
 	}
 
-	if err := c.doInvoke(stream, enc, rpc, c.wbuf, metadata, out); err != nil {
+	if err := c.doInvoke(stream, enc, rpc, data, metadata, out); err != nil {
 		return err
 	}
 	return nil
